@@ -416,7 +416,11 @@ func (g *Gen) sinkLocals() []Stmt {
 		case KI32, KU32, KF32:
 			sink(t, e)
 		case KBool:
-			sink(U32, &Builtin{Name: "select", Args: []Expr{&Lit{Ty: U32, I: 0}, &Lit{Ty: U32, I: 1}, e}, Ty: U32})
+			if g.on("fn.select") {
+				sink(U32, &Builtin{Name: "select", Args: []Expr{&Lit{Ty: U32, I: 0}, &Lit{Ty: U32, I: 1}, e}, Ty: U32})
+			} else {
+				sink(U32, &Cons{Ty: U32, Args: []Expr{e}})
+			}
 		case KVec:
 			for c := 0; c < t.N; c++ {
 				visit(&Swiz{X: e, Comps: []int{c}, Ty: t.Elem}, t.Elem, d+1)
